@@ -69,4 +69,7 @@ let () = iter_lines (fun line ->
       let s = List.map (fun x -> iz (s16 ((if avx2 then asm_quantize_avx2 else asm_quantize_sse2) q.q_recip q.q_corr q.q_scale (w16 (zi x))))) xs in
       let c = List.map (fun x -> iz (c_quantize q.q_recip q.q_corr q.q_shift (zi x))) xs in
       Printf.printf "S %s %s | C %s %s\n" hdr (pr_ints s) hdr (pr_ints c)
+  | "fdctfst" :: xs ->
+      let blk = zl (List.map int_of_string xs) in
+      Printf.printf "S %s | C %s\n" (prz (asm_fdct_ifast blk)) (prz (c_fdct_ifast blk))
   | _ -> print_endline "-")
